@@ -329,7 +329,7 @@ def _coq_eval_shard(args):
     except subprocess.TimeoutExpired:
         return idx, None, None, "timeout", time.time() - t0
     if r.returncode != 0:
-        return idx, None, None, r.stdout[-2000:], time.time() - t0
+        return idx, None, None, "coqc exit %d: %s" % (r.returncode, r.stdout[-2000:]), time.time() - t0
     out = r.stdout
 
     def grab(nm):
@@ -340,7 +340,10 @@ def _coq_eval_shard(args):
         if not body:
             return []
         return [int(x.strip().replace("%N", "")) for x in body.split(";")]
-    return idx, grab("M"), grab("V"), None, time.time() - t0
+    m, v = grab("M"), grab("V")
+    if m is None or v is None:
+        return idx, m, v, "unparsable coqc output: " + out[-600:], time.time() - t0
+    return idx, m, v, None, time.time() - t0
 
 
 def coq_eval_cases(run_module, cases, shard_size=400, extra_header="", case_type="case"):
@@ -358,7 +361,8 @@ def coq_eval_cases(run_module, cases, shard_size=400, extra_header="", case_type
                 continue
             mism += [idx * shard_size + k for k in m]
             viol += [idx * shard_size + k for k in v]
-    shutil.rmtree(workdir, ignore_errors=True)
+    if not os.environ.get("VERIF_KEEP_CASES"):
+        shutil.rmtree(workdir, ignore_errors=True)
     return sorted(mism), sorted(viol), errors
 
 
